@@ -305,7 +305,10 @@ func (x *Exec) loopEntry(fr *Frame, st *State, lp *loop, prev *ssa.BasicBlock) {
 			fr.iters[r] = nv
 		}
 	}
-	if w.all {
+	if ls != nil && ls.ModSet {
+		sev := &specEnv{x: x, st: st, old: x.entry, vars: x.params, fr: fr, at: b, c: x.c}
+		x.applyModifies(sev, st, ls.Modifies)
+	} else if w.all {
 		x.havoc(st, true, nil)
 	} else if len(w.pref) > 0 {
 		x.havoc(st, false, w.pref)
@@ -333,6 +336,15 @@ func (x *Exec) loopEntry(fr *Frame, st *State, lp *loop, prev *ssa.BasicBlock) {
 		}
 	}
 	fr.loopIn[b.Index] = true
+	if ls != nil && ls.ModSet {
+		if fr.heads == nil {
+			fr.heads = map[int]*State{}
+		}
+		snap := st.clone()
+		snap.noSide = true
+		fr.heads[b.Index] = snap
+		fr.headFr = fr.clone()
+	}
 }
 
 func blockPosT(b *ssa.BasicBlock) token.Pos {
@@ -388,6 +400,10 @@ func (x *Exec) loopBackEdge(fr *Frame, st *State, lp *loop, prev *ssa.BasicBlock
 			props = x.c.Props
 		}
 		x.obligeX(st, "invariant-step", inv.Name()+"-step", props, t, "loop invariant preserved: "+inv.Text, posStr(x.prog.fset, blockPosT(b)), inv.MustFail, false)
+	}
+	if ls.ModSet && fr.heads[b.Index] != nil {
+		hev := &specEnv{x: x, st: fr.heads[b.Index], old: x.entry, vars: x.params, fr: fr.headFr, at: b, c: x.c}
+		x.frameCheckAgainst(st, fr.heads[b.Index], ls.Modifies, hev, fmt.Sprintf("loop%d-frame", lp.ord), x.c.Props)
 	}
 	if ls.Decreases != nil {
 		old := fr.variants[b.Index]
